@@ -869,11 +869,16 @@ CallMacro(E, H, SE, whole, lib) ==
   IN /\ ctl' = Append(ctl, fr)
      /\ mx' = [mx EXCEPT !.heap = p.h, !.senv = SE2, !.acts = Append(mx.acts, [sv |-> p.sv, tok |-> NoSite])]
 
+\* the global definitions at the moment of a macro call / a slot call: what was defined DURING the call is published
+\* to the caller afterwards (a caller's local that merely shares its name with an earlier global is left alone)
+CGlob(i) == <<"glob", i, 0>>
+
 SIMacro ==  \* visit_UseInternalMacro: the define-macro element in the normal flow
   /\ Running /\ F.st = "imacro" /\ F.kind # "macro"
   /\ CallMacro(F.i, mx.heap, mx.senv, FALSE, 0)
   /\ envs' = Append(envs, envs[Top])
-  /\ UNCHANGED <<pid, glob, rep, cells, out, log, tok, exc, res>>
+  /\ cells' = SetCell(CGlob(F.i), [t |-> "glob", g |-> glob])
+  /\ UNCHANGED <<pid, glob, rep, out, log, tok, exc, res>>
 
 CMacroName(i) == <<"macroname", i, 0>>
 
@@ -901,23 +906,24 @@ SUse ==     \* visit_UseExternalMacro (+ the Define of `macroname` around it)
          E == IF u.whole THEN 0 ELSE MacroDef(u.mname)
          \* `macroname`: the text after the last '/' of the use-macro expression
          env1 == SetLocal(envs, "macroname", [t |-> "macroexpr", i |-> F.i])
-     IN /\ cells' = [x \in DOMAIN cells \cup {CMacroName(F.i), CSenv(F.i)} |->
+     IN /\ cells' = [x \in DOMAIN cells \cup {CMacroName(F.i), CSenv(F.i), CGlob(F.i)} |->
                           IF x = CMacroName(F.i) THEN Lookup("macroname")
-                          ELSE IF x = CSenv(F.i) THEN [t |-> "senv", l |-> mx.senv[STop]] ELSE cells[x]]
+                          ELSE IF x = CSenv(F.i) THEN [t |-> "senv", l |-> mx.senv[STop]]
+                          ELSE IF x = CGlob(F.i) THEN [t |-> "glob", g |-> glob] ELSE cells[x]]
         /\ tok' = Site(F.i, "use", 0)
         /\ CallMacro(E, r.h, r.se, u.whole, u.lib)
         /\ envs' = Append(env1, env1[Len(env1)])
   /\ UNCHANGED <<pid, glob, rep, out, log, exc, res>>
 
-\* econtext.update(rcontext) after a macro call
-WithGlobals(layer) == [n \in Names |-> IF glob[n] # Undef THEN glob[n] ELSE layer[n]]
+\* after a macro call (and after a slot filler) the globals defined during the call are published to the caller
+WithGlobals(layer, g0) == [n \in Names |-> IF glob[n] # Undef /\ glob[n] # g0[n] THEN glob[n] ELSE layer[n]]
 
 MReturn ==  \* the macro function returns
   /\ Running /\ F.kind \in {"macro", "tmpl"}
   /\ IF F.kind = "macro" THEN F.st = "done" ELSE (F.st = "kids" /\ F.c = KidsEnd)
   /\ LET n == Len(ctl)
          caller == ctl[n - 1]
-         lay == WithGlobals(envs[Top - 1])
+         lay == WithGlobals(envs[Top - 1], cells[CGlob(caller.i)].g)
      IN IF caller.st = "use"
         THEN /\ envs' = [SubSeq(envs, 1, Top - 2) \o <<lay>> EXCEPT ![Top - 1]["macroname"] =
                             Restored("macroname", cells[CMacroName(caller.i)])]
@@ -943,13 +949,14 @@ SDs ==      \* visit_DefineSlot: the slot's default content, or the filler
           /\ envs' = Append(envs, envs[Top])
           /\ mx' = [mx EXCEPT !.senv = Append(mx.senv, mx.senv[STop]),
                               !.tstk = Append(mx.tstk, mx.i18n), !.i18n = fl.i18n]
-  /\ UNCHANGED <<pid, glob, rep, cells, out, log, tok, exc, res>>
+  /\ cells' = IF mx.acts[F.fn].sv[It.ds] = NoFill THEN cells ELSE SetCell(CGlob(F.i), [t |-> "glob", g |-> glob])
+  /\ UNCHANGED <<pid, glob, rep, out, log, tok, exc, res>>
 
 FReturn ==  \* the filler returns: the define-slot element is done
   /\ Running /\ F.kind = "fill" /\ F.st = "done"
   /\ LET n == Len(ctl) IN
      ctl' = [SubSeq(ctl, 1, n - 1) EXCEPT ![n - 1].st = "done", ![n - 1].j = 1]
-  /\ envs' = SubSeq(envs, 1, Top - 1)
+  /\ envs' = [SubSeq(envs, 1, Top - 1) EXCEPT ![Top - 1] = WithGlobals(envs[Top - 1], cells[CGlob(ctl[Len(ctl) - 1].i)].g)]
   /\ mx' = [mx EXCEPT !.senv = SubSeq(mx.senv, 1, Len(mx.senv) - 1),
                       !.i18n = mx.tstk[Len(mx.tstk)], !.tstk = SubSeq(mx.tstk, 1, Len(mx.tstk) - 1)]
   /\ UNCHANGED <<pid, glob, rep, cells, out, log, tok, exc, res>>
